@@ -692,7 +692,7 @@ func runAct(casesPath, tracePath string, shard, shards int) {
 			tmu.Lock()
 			g, t, cnt := lastG, lastT, nT-before
 			tmu.Unlock()
-			if o.Kind != "response" || cnt != 1 {
+			if o.Kind != "response" || cnt < 1 {
 				vh.Must(fmt.Errorf("kind=%s timeout events=%d", o.Kind, cnt), "timeout case did not complete")
 			}
 			tr.Emit(vh.Ev{"ev": "tmo", "c": ac.C, "g": g, "t": t, "via": "e2e"})
